@@ -291,6 +291,51 @@ func runC02(c *Ctx) {
 	}
 	sort.Strings(noTable)
 	r.Extra["isvalid_without_reference_size"] = noTable
+	// the datagram's own length field says where it ends; what follows is Ethernet padding (frames below the 60-byte
+	// minimum) and not an inconsistency: IP4.IsValid and IP6.IsValid compare the length field with len(p) by <=, not ==
+	r.Rule("trailer", "an IP datagram followed by Ethernet padding is valid", 2)
+	for _, tn := range []struct{ typ, field string }{{"IP4", "TotalLen"}, {"IP6", "PayloadLen"}} {
+		fn := c.P.Method("", tn.typ, "IsValid")
+		if fn == nil {
+			r.Add(core.Obligation{Rule: "trailer", Key: "trailer " + tn.typ + ".IsValid", Status: core.Undecided, Detail: "IsValid not found"})
+			continue
+		}
+		st, det := core.Undecided, "no comparison of "+tn.field+" with len(p) recognised in "+tn.typ+".IsValid"
+		core.EachInstr(fn, func(i ssa.Instruction) {
+			bo, ok := i.(*ssa.BinOp)
+			if !ok {
+				return
+			}
+			x, y := norm(bo.X), norm(bo.Y)
+			if !(strings.Contains(x, tn.field+"(") && y == "len(recv)" || strings.Contains(y, tn.field+"(") && x == "len(recv)") {
+				return
+			}
+			if _, isIf := firstReferrerIf(bo); !isIf {
+				// the comparison may be an operand of && / ||: still the comparison that decides
+			}
+			switch bo.Op {
+			case token.EQL, token.NEQ:
+				st, det = core.Violated, tn.typ+".IsValid compares "+tn.field+" with len(p) for equality ("+x+" "+bo.Op.String()+" "+y+"): a datagram followed by Ethernet padding (a frame below the 60-byte minimum, which the library's own Ether.AppendPayload produces) is refused as length-inconsistent"
+			case token.LEQ, token.GEQ, token.LSS, token.GTR:
+				if st != core.Violated {
+					st, det = core.Proved, ""
+				}
+			}
+		})
+		r.Add(core.Obligation{Rule: "trailer", Key: "trailer " + tn.typ + ".IsValid", Func: core.FuncName(fn), Pos: c.P.Pos(fn.Pos()), Status: st,
+			Basis: tn.field + " compared with len(p) by an inequality", Detail: det})
+	}
+}
+
+func firstReferrerIf(v ssa.Value) (*ssa.If, bool) {
+	if refs := v.Referrers(); refs != nil {
+		for _, r := range *refs {
+			if iff, ok := r.(*ssa.If); ok {
+				return iff, true
+			}
+		}
+	}
+	return nil, false
 }
 
 // ---- Parse decision table (Appendix C.1) ----
@@ -663,6 +708,8 @@ func runC02Offsets(c *Ctx) {
 				case v6 && !v4:
 					l4 = bitprov.ConstInt(H + 40)
 					exp["offsetIP6"] = hC.String()
+					// the datagram ends at 40 + PayloadLen, like the IPv4 one at TotalLen
+					exp["ether"] = "p[0:" + bitprov.ConstInt(H+40).Add(bitprov.BE("", int(H)+4, 2)).String() + "]"
 					exp["SrcAddr.IP"] = fmt.Sprintf("[%d:%d]", H+8, H+24)
 					exp["DstAddr.IP"] = fmt.Sprintf("[%d:%d]", H+24, H+40)
 				default:
